@@ -220,7 +220,7 @@ def run_table(spec: Dict[str, Any]) -> Dict[str, Any]:
                 occ2[(op, key)] = o + 1
                 if idx in (i, j):
                     plan.append({"op": op, "key": key, "occ": o, "kind": rng.choice(KINDS[op])})
-            pos = "reach" if i < first_marker_list else "markers" if i < first_data_list else "sweep"
+            pos = "reach" if j < first_marker_list else "markers" if j < first_data_list else "sweep"   # the later fault decides
             what = "double:" + "+".join(f"{p['kind']}@{p['op']}:{role_of(p['key'], reach_lists, reach_mans)}" for p in plan)
             out["runs"].append(one(plan, None, pos, what))
             out["stats"]["fault_runs"] += 1
@@ -320,7 +320,7 @@ def make_specs(ctx) -> List[Dict[str, Any]]:
     graces = [0] if quick else [0, 3600000]
     for vi, v in enumerate(variants):
         for g in graces:
-            specs.append(dict(v, seed=ctx.rng.randrange(1 << 30), grace=g, all_kinds=True, pairs=0 if quick else 250,
+            specs.append(dict(v, seed=ctx.rng.randrange(1 << 30), grace=g, all_kinds=True, pairs=int(os.environ.get("VERIF_C07_PAIRS", 0 if quick else 250)),
                               base=os.path.join(ctx.scratch, f"f{vi}_{g}")))
     return specs
 
@@ -403,7 +403,7 @@ def run_campaign(ctx) -> None:
         if not exprs:
             break
         try:
-            vals = coqbuild.coq_eval(REQ, exprs, preamble=pre, chunk=max(8, len(exprs) // 15 + 1))
+            vals = coqbuild.coq_eval(REQ, exprs, preamble=pre, chunk=gcsim.chunk_for(len(exprs)), timeout=2400)
         except RuntimeError as e:
             ctx.proof_problems.append("model evaluation failed: " + str(e)[:600])
             return
@@ -420,7 +420,7 @@ def run_campaign(ctx) -> None:
     bad = []
     for ri, run, model in done:
         ctx.count(1, ("fault", ri, run["what"], repr(run["plan"])))
-        d = gcsim.compare(run["real"], run["before"], run["after"], model)
+        d = gcsim.compare(run["real"], run["before"], run["after"], model, nplan=len(run["plan"] or []))
         if d:
             bad.append({"spec": {k: recs[ri][0][k] for k in recs[ri][0] if k != "base"}, "fault": run["what"], "plan": run["plan"], "diffs": d[:4]})
     ctx.correspondence("gc_faults", len(done), bad)
@@ -437,7 +437,7 @@ def run_campaign(ctx) -> None:
             exprs.append(gcsim.gc_expr(m["tp"], m["grace"], m["now_ms"], TIMEOUT_MS, [], m["snaps"], run["store"]))
             druns.append((ri, run))
     try:
-        vals = coqbuild.coq_eval(REQ, exprs, chunk=max(4, len(exprs) // 15 + 1))
+        vals = coqbuild.coq_eval(REQ, exprs, chunk=gcsim.chunk_for(len(exprs)), timeout=2400)
     except RuntimeError as e:
         ctx.proof_problems.append("model evaluation failed: " + str(e)[:600])
         return
